@@ -20,6 +20,7 @@ GEN = ["vec_u64_new", "vec_u64_cap", "vec_u64_bases", "vec_u8_bases", "vec_u256_
        "bytes_new", "bytes_bases", "string"]
 SIM = ["vec_u64", "vec_u8", "vec_u256", "vec_pair", "bytes", "vec_u64_grow", "vec_pair_grow", "bytes_grow"]
 SIM_SEEDS = [11, 12]
+SIM_TWICE = {"vec_u64", "bytes", "vec_u64_grow", "vec_pair_grow", "bytes_grow"}      # these run with both seeds
 SIM_WALKS = 100
 NUM = ["u8", "u16", "u32", "u64", "u128a", "u128b", "u256a", "u256b", "u256c"]
 TLC_PAR = 4
@@ -193,7 +194,7 @@ def run(ctx):
         sims = [(slice_for_seed(SIM, ctx.seed, 1)[0], SIM_SEEDS[ctx.seed % len(SIM_SEEDS)])]
         nums = slice_for_seed(NUM, ctx.seed, 1)
     else:
-        gens, sims, nums = GEN, [(s, sd) for s in SIM for sd in SIM_SEEDS], NUM
+        gens, sims, nums = GEN, [(s, sd) for s in SIM for sd in SIM_SEEDS if sd == SIM_SEEDS[0] or s in SIM_TWICE], NUM
     jobs = [("gen", g, None) for g in gens] + [("sim", s, sd) for s, sd in sims] + [("num", t, None) for t in nums]
 
     def do(j):
